@@ -175,8 +175,13 @@ def run_pair(ctx, ops, harness, tag="ops", timeout=1200, driver_args=()):
     for f in (gout, annf):
         if os.path.exists(f):
             os.remove(f)
+    env = dict(GOENV)
+    if "harness_ft" in harness:
+        # Go's faketime clock only advances when the scheduler is idle; with several Ps that
+        # detection is racy (Sleep occasionally spins forever). One P makes it deterministic.
+        env["GOMAXPROCS"] = "1"
     try:
-        rc, so, se = sh([harness, "-i", opsf, "-o", gout, "-a", annf], timeout=timeout, env=GOENV)
+        rc, so, se = sh([harness, "-i", opsf, "-o", gout, "-a", annf], timeout=timeout, env=env)
     except subprocess.TimeoutExpired:
         rc, se = -9, "TIMEOUT"
     g = open(gout).read().split("\n") if os.path.exists(gout) else []
